@@ -423,6 +423,18 @@ def alt_family(seed, n, maxlen=4, budget=8000):
     return out
 
 
+def acmd_hole_defs(seed):
+    """an adjacent subcommand between an option declared before it and one declared after it: the
+    earlier option consumes its item first and leaves a hole in the command's window"""
+    out = []
+    for i, wrap in enumerate(["many", "many"]):
+        g = adjf("g0", wrap, cmdhead("h0", "cmd"), sw("a", "-a") if i == 0 else ar("a", "opt", "int", "-a"))
+        d = mkdef(f"acmdhole{seed}_{i}", level([sw("o1", "-v"), g, sw("o3", "-q")], NOTAIL), maxlen=5,
+                  extras=("unk",), spells=("sep",), words=("cmd",))
+        out.append(d)
+    return out
+
+
 def adj_family(seed, n, maxlen=5, budget=8000):
     rnd = random.Random(seed)
     out = []
@@ -457,7 +469,40 @@ def field_leaves(f):
         return [f]
     if f["kind"] == "alt":
         return [l for b in f["branches"] for l in b["fields"]]
-    return [f["head"]] + [m for m in f["members"] if m["kind"] != "pos"]
+    if f["kind"] in ("seq",):
+        return list(f["fields"])
+    head = [] if f["head"]["kind"] == "cmd" else [f["head"]]
+    return head + [m for m in f["members"] if m["kind"] != "pos"]
+
+
+def cmdhead(id, *names):
+    return {"kind": "cmd", "id": id, "names": list(names), "shorts": [], "longs": [], "help": f"HELP-{id}", "hidden": False}
+
+
+def acmd_family(seed, n, maxlen=5, budget=8000):
+    """adjacent subcommands (chains): the command name opens a block made of its own items"""
+    rnd = random.Random(seed)
+    out = []
+    wraps = ["one", "opt", "many"]
+    while len(out) < n:
+        shape = len(out) % 3
+        wrap = wraps[(len(out) // 3) % 3]
+        if shape == 0:
+            g = adjf("g0", wrap, cmdhead("h0", "mv"), posm("x"), posm("y"))
+        elif shape == 1:
+            g = adjf("g0", wrap, cmdhead("h0", "cmd", "c2"), sw("a", "-a"), ar("b", "opt", "int", "-b"))
+        else:
+            g = adjf("g0", wrap, cmdhead("h0", "eat"), ar("w", "one", "str", "--what"), sw("q", "-q"), posm("f"))
+        others = [sw("o1", "-v")] if rnd.random() < 0.7 else []
+        # named items may follow only a group without positional members (check_invariants)
+        after = [sw("o3", "-z")] if (shape == 1 and wrap == "many" and rnd.random() < 0.8) else []
+        tail = postail(pos("p0", "many")) if rnd.random() < 0.3 else NOTAIL
+        d = mkdef(f"acmd{seed}_{len(out)}", level(others + [g] + after, tail), maxlen=maxlen,
+                  extras=rnd.choice([("unk",), ("dd",), ("help",), ()]), spells=("sep",), words=("1", "mv") if shape == 0 else ("1",))
+        d["alpha"]["words"] = list(dict.fromkeys(d["alpha"]["words"] + g["head"]["names"][:1]))
+        galpha_trim(d, budget)
+        out.append(d)
+    return out
 
 
 def galphabet_size(d):
